@@ -811,7 +811,7 @@ func c18JudgeServer(j *c18Judge, srv *lfsServer, from int, asked map[string]int6
 		case "lock-delete":
 			j.apiHeaders(rq, cas)
 			j.body("lock-delete", rq.Body, cas)
-			if ep := rq.Header["~escaped-path"]; rq.Query != "" || strings.Count(strings.TrimPrefix(ep, "/locks/"), "/") != 1 || !strings.HasPrefix(ep, "/locks/") {
+			if ep := rq.Header["~escaped-path"]; rq.Query != "" || strings.Count(strings.TrimPrefix(ep, "/locks/"), "/") != 1 || !strings.HasPrefix(ep, "/locks/") || strings.HasPrefix(ep, "/locks//") {
 				j.fail("an unlock request does not go to the documented endpoint /locks/:id/unlock for the lock id asked", cas, rq.Method+" "+ep+"?"+rq.Query)
 			}
 		case "lock-verify":
@@ -1131,9 +1131,11 @@ func c18Corruption(c *Ctx, j *c18Judge, idx int, r *Rng) {
 		return
 	}
 	// single-field corruptions of otherwise valid responses
-	field := Pick(r, []string{"objects=null", "objects[0]=null", "objects[0].actions=null", "objects[0].actions.X=null", "objects[0].oid=other", "objects[0].oid=number", "objects[0].size=-1", "objects[0].size=string", "objects[0].size=huge",
+	fields := []string{"objects=null", "objects[0]=null", "objects[0].actions=null", "objects[0].actions.X=null", "objects[0].oid=other", "objects[0].oid=number", "objects[0].size=-1", "objects[0].size=string", "objects[0].size=huge",
 		"transfer=unknown", "transfer=number", "objects[0].actions.X.href=empty", "objects[0].actions.X.href=number", "objects[0].actions.X.header=string", "objects[0].actions.X.expires_in=-1", "objects[0].error=string", "objects[0].error.code=string",
-		"lock=null", "lock.id=number", "locks[0].id=a?b#c", "locks[0].id=../../x", "locks[0].id=a b/c", "locks[0].id=a?b#c", "lock.id=x/../y?z", "lock.owner=null", "locks=null", "locks[0]=null", "ours=null", "ours[0]=null", "theirs[0].owner=null", "next_cursor=number"})
+		"lock=null", "lock.id=number", "locks[0].id=a?b#c", "locks[0].id=../../x", "locks[0].id=a b/c", "locks[0].id=a?b#c", "locks[0].id=", "lock.id=x/../y?z", "lock.owner=null", "locks=null", "locks[0]=null", "ours=null", "ours[0]=null", "theirs[0].owner=null", "next_cursor=number"}
+	// every kind of corruption in turn (the quick tier runs one full round), the starting point depends on the seed
+	field := fields[(idx/3+int(c.Seed%1000))%len(fields)]
 	srv.mu.Lock()
 	srv.mutate = func(kind string, m map[string]interface{}) { c18Mutate(field, m) }
 	srv.mu.Unlock()
@@ -1278,7 +1280,7 @@ func c18Mutate(field string, m map[string]interface{}) {
 		if l, ok := m["lock"].(map[string]interface{}); ok {
 			l["id"] = 12
 		}
-	case "locks[0].id=a?b#c", "locks[0].id=../../x", "locks[0].id=a b/c":
+	case "locks[0].id=a?b#c", "locks[0].id=../../x", "locks[0].id=a b/c", "locks[0].id=":
 		// a well-typed id with characters that mean something in a URL: the unlock request that uses it
 		if o := first("locks"); o != nil {
 			o["id"] = strings.TrimPrefix(field, "locks[0].id=")
@@ -1329,7 +1331,7 @@ func c18(c *Ctx) {
 	c.R.Rule = "cases = (1) generated inputs (object lists incl. odd ids and sizes, adapter configurations, ref names and paths needing JSON escaping, limits, multi-page cursors) through the real tq.Batch / locking client in process, the captured body compared with the Lean model's encoding of the same inputs; (2) scenario flows with the real binary (push via pre-push hook incl. lock verification, git lfs push, clone+fetch+pull, lock/unlock/locks with filters, limits, --verify, paginating server) — every captured request validated against the repo's own docs/api/schemas by gojsonschema AND by the model's validator, headers, action use (method, URL, supplied header), objects ⊆ asked; (3) unsupported hash_algo values and single-field corruptions of batch/lock responses; non-trivial = case that produced >= 1 request / corrupt response; distinct = different encoded case"
 	j := &c18Judge{c: c}
 	c18Encoders(c, j, r.Fork())
-	n := c.N(60, 900)
+	n := c.N(102, 900)
 	var wg sync.WaitGroup
 	sem := make(chan struct{}, 10)
 	for i := 0; i < n; i++ {
